@@ -522,6 +522,26 @@ func canonID(raw json.RawMessage) string {
 func runC02(c *vh.Case, spec c02Spec) ([]c02Resp, map[int]int) {
 	ctx := context.Background()
 	server := c02Server()
+	// an application that registers further methods of its own while the server is already serving
+	if c.R.Chance(1, 4) {
+		stopReg := make(chan struct{})
+		regDone := make(chan struct{})
+		go func() {
+			defer close(regDone)
+			for i := 0; i < 12; i++ {
+				select {
+				case <-stopReg:
+					return
+				case <-time.After(ms(1 + i%3)):
+				}
+				mcp.AddReceivingCustomMethod(server, fmt.Sprintf("acme/dynamic-%d", i), func(context.Context, *mcp.ServerSession, *c02DynParams) (*c02DynResult, error) {
+					return &c02DynResult{}, nil
+				})
+			}
+		}()
+		defer func() { close(stopReg); <-regDone }()
+		c.Count("cases_registering_methods_while_serving", 1)
+	}
 	col := &c02Collector{stat: map[int]int{}}
 	initMsg := fmt.Sprintf(`{"jsonrpc":"2.0","id":"init","method":"initialize","params":{"protocolVersion":%q,"capabilities":{},"clientInfo":{"name":"raw","version":"0"}}}`, spec.Version)
 	initdMsg := `{"jsonrpc":"2.0","method":"notifications/initialized"}`
@@ -1017,3 +1037,7 @@ func (f *c02FlakyStore) Append(ctx context.Context, sid, stream string, data []b
 	}
 	return f.EventStore.Append(ctx, sid, stream, data)
 }
+
+type c02DynParams struct{ mcp.ParamsBase }
+
+type c02DynResult struct{ mcp.ResultBase }
